@@ -52,6 +52,9 @@ class T:
             if f == "len" and len(e.args) == 1:
                 a = self.val(e.args[0], env)
                 if a[1] in ("T", "IX"): return (f"({a[0]}).length", "NAT")
+            if f == "torch.arange" and len(e.args) == 1 and all(k.arg == "dtype" for k in e.keywords):
+                a = self.val(e.args[0], env)
+                if a[1] == "NAT": return (f"List.range {a[0]}", "IX")
         if isinstance(e, ast.Compare) and len(e.ops) == 1 and isinstance(e.ops[0], ast.GtE):
             l, r = self.val(e.left, env), self.val(e.comparators[0], env)
             if l[1] == "T" and r[1] == "Q": return (f"geScalar {l[0]} {r[0]}", "M")
@@ -67,7 +70,7 @@ class T:
                 a = self.val(e.value.value, env)
                 if a[1] in ("T", "IX"): return (f"({a[0]}).length", "NAT")
             b, i = self.val(e.value, env), self.val(e.slice, env)
-            if b[1] == "T" and i[1] == "M": return (f"indexMask {b[0]} {i[0]}", "T")
+            if b[1] in ("T", "IX") and i[1] == "M": return (f"indexMask ({b[0]}) ({i[0]})" if " " in b[0] + i[0] else f"indexMask {b[0]} {i[0]}", b[1])
             if b[1] in ("T", "IX") and i[1] == "IX": return (f"takeIdx {b[0]} 0 {i[0]}", b[1])
         raise Unsupported(f"line {getattr(e, 'lineno', '?')}: expression `{ast.unparse(e)}`")
 
@@ -230,6 +233,42 @@ def simBlocksT (matrix : List (List Q)) (min_sim : Q) (max_nbrs : Option Nat) (b
   (cumsum c_cat, columns.flatten, values.flatten)
 """, ast.get_source_segment(open(mod._path).read(), blk) + ast.get_source_segment(open(mod._path).read(), blks))
 
+class _Rename(ast.NodeTransformer):
+    """attribute expressions of the component that the segment reads, as plain names"""
+    MAP = {"self.user_vectors_": "vectors", "self.config.min_sim": "min_sim", "len(self.users_)": "nusers"}
+    def generic_visit(self, node):
+        if isinstance(node, ast.expr) and ast.unparse(node) in self.MAP: return ast.copy_location(ast.Name(id=self.MAP[ast.unparse(node)], ctx=ast.Load()), node)
+        return super().generic_visit(node)
+
+def translate_user_nbrs(src_root):
+    """knn/user.py `UserKNNScorer.__call__`: the statements from the similarity product to the candidate neighbours handed to
+    `score_items_with_neighbors` — `nbr_sims = torch.mv(…)`, the user's own entry zeroed, the mask `nbr_sims >= min_sim`, the masked
+    similarities and positions"""
+    rel = "knn/user.py"; src = open(os.path.join(src_root, rel)).read(); mod = ast.parse(src)
+    cls = next((c for c in mod.body if isinstance(c, ast.ClassDef) and c.name == "UserKNNScorer"), None)
+    fn = next((f for f in (cls.body if cls else []) if isinstance(f, ast.FunctionDef) and f.name == "__call__"), None)
+    if fn is None: raise Unsupported("UserKNNScorer.__call__ not found")
+    body = [b for b in fn.body if not isinstance(b, ast.Assert)]
+    texts = [ast.unparse(b) for b in body]
+    starts = [i for i, t in enumerate(texts) if t.startswith("nbr_sims = ")]; e1 = [i for i, t in enumerate(texts) if t.startswith("kn_idxs = ")]; e2 = [i for i, t in enumerate(texts) if t.startswith("kn_sims = ")]
+    ends = [max(e1[0], e2[0])] if len(e1) == 1 and len(e2) == 1 else []
+    if len(starts) != 1 or len(ends) != 1 or ends[0] < starts[0]: raise Unsupported("UserKNNScorer.__call__: the neighbour-selection segment (`nbr_sims = …` to `kn_idxs = …`)")
+    if not any(t in ("(uidx, ratings, umean) = udata", "uidx, ratings, umean = udata") for t in texts[:starts[0]]): raise Unsupported("UserKNNScorer.__call__: `uidx, ratings, umean = udata` before the segment")
+    seg_stmts = body[starts[0]:ends[0] + 1]
+    for b in body[ends[0] + 1:]:
+        for n in ast.walk(b):
+            if isinstance(n, (ast.Assign, ast.AugAssign)) and any(isinstance(x, ast.Name) and x.id in ("kn_idxs", "kn_sims") for t in (n.targets if isinstance(n, ast.Assign) else [n.target]) for x in ast.walk(t)):
+                raise Unsupported("UserKNNScorer.__call__: the candidate neighbours are changed after they were selected")
+    calls = [n for b in body[ends[0] + 1:] for n in ast.walk(b) if isinstance(n, ast.Call) and ast.unparse(n.func) == "score_items_with_neighbors"]
+    if len(calls) != 1 or [ast.unparse(a) for a in calls[0].args[2:4]] != ["kn_idxs", "kn_sims"]: raise Unsupported("UserKNNScorer.__call__: `score_items_with_neighbors(…, kn_idxs, kn_sims, …)`")
+    stmts = [ast.fix_missing_locations(_Rename().visit(ast.parse(ast.unparse(b)).body[0])) for b in seg_stmts]
+    stmts.append(ast.parse("return (len(kn_idxs), kn_idxs, kn_sims)").body[0])
+    t = T(); env = {"vectors": ("vectors", "MAT"), "ratings": ("ratings", "T"), "uidx": ("uidx", "ONAT"), "min_sim": ("min_sim", "Q"), "nusers": ("nusers", "NAT")}
+    text = t.block(stmts, env, 1)
+    return ("/-- `UserKNNScorer.__call__`: the candidate neighbours (positions, similarities) handed to `score_items_with_neighbors` -/\n"
+            "def userNbrsT (vectors : List (List Q)) (ratings : List Q) (uidx : Option Nat) (min_sim : Q) (nusers : Nat) : List Nat × List Q :=\n" + text + "\n",
+            "\n".join(ast.get_source_segment(src, b) for b in seg_stmts), rel, t.notes)
+
 def translate(src_root):
     rel = "knn/item.py"; src = open(os.path.join(src_root, rel)).read(); mod = ast.parse(src); mod._path = os.path.join(src_root, rel)
     fn = find_fn(mod, "_sim_row")
@@ -247,14 +286,16 @@ def translate(src_root):
     t = T(); env = {k: (k, v) for k, v in PARAM_TYPES.items()}
     body = t.block(fn.body, env, 1)
     btext, bseg = translate_blocks(mod)
-    seg = ast.get_source_segment(src, fn) + "\n" + bseg
+    utext, useg, urel, unotes = translate_user_nbrs(src_root)
+    seg = ast.get_source_segment(src, fn) + "\n" + bseg + "\n" + useg
     head = ("import LK.Model.TorchOps\n/-! GENERATED by translate/py2lean_sim.py on every run of `./check C09`; do not edit.\n"
-            f"* `simRowT`, `simBlockT`, `simBlocksT` ← {rel} _sim_row, _sim_block, _sim_blocks, source sha256/64 {hashlib.sha256(seg.encode()).hexdigest()[:16]}\n"
+            f"* `simRowT`, `simBlockT`, `simBlocksT` ← {rel} _sim_row, _sim_block, _sim_blocks; `userNbrsT` ← {urel} UserKNNScorer.__call__ (neighbour selection), source sha256/64 {hashlib.sha256(seg.encode()).hexdigest()[:16]}\n"
             "    - `nitems` is the number of rows of `matrix`; `torch.jit.fork(f, …)` / `.wait()` is the call `f(…)` (results are consumed in submission order)\n"
             "    - `rowNnz` stands for `len(row.indices())`, the number of stored entries of the sparse row\n"
-            + "".join(f"    - {n}\n" for n in dict.fromkeys(t.notes)) + "-/\nset_option linter.unusedVariables false\nnamespace LK.Gen.SimC09\nopen LK.TorchOps LK.ArrayOps LK.KNN\n\n")
+            "    - in `userNbrsT`, `vectors` is `self.user_vectors_`, `nusers` is `len(self.users_)`, `min_sim` is `self.config.min_sim`\n"
+            + "".join(f"    - {n}\n" for n in dict.fromkeys(t.notes + unotes)) + "-/\nset_option linter.unusedVariables false\nnamespace LK.Gen.SimC09\nopen LK.TorchOps LK.ArrayOps LK.KNN\n\n")
     return head + ("def simRowT (item : Nat) (matrix : List (List Q)) (row : List Q) (rowNnz : Nat) (min_sim : Q) (max_nbrs : Option Nat) : List Nat × List Q :=\n"
-                   f"{body}\n\n{btext}\nend LK.Gen.SimC09\n")
+                   f"{body}\n\n{btext}\n{utext}\nend LK.Gen.SimC09\n")
 
 if __name__ == "__main__":
     print(translate(sys.argv[1] if len(sys.argv) > 1 else "/repo/src/lenskit"))
